@@ -152,7 +152,7 @@ func c12Sizes(r *rng, n int) (int, int) {
 	case 4:
 		s = n + 2 + r.intn(10)
 	case 5:
-		s = pick(r, []int{1 << 40, math.MaxInt, math.MaxInt - 1, 1 << 53, 1<<53 + 1})
+		s = pick(r, []int{1 << 40, math.MaxInt, math.MaxInt - 1, math.MaxInt - 100, math.MaxInt - 511, math.MaxInt - 512, 1 << 53, 1<<53 + 1})
 	case 6, 7:
 		s = 1 + r.intn(n+1)
 	default:
